@@ -642,6 +642,8 @@ class Interp:
             self.need_arith(v)
             if isinstance(v, Sym):
                 return Sym(("neg", v.tree))
+            if isinstance(v, refnum.ApproxInt):
+                raise OOD("int64 range")
             if v.big:
                 # the sign of a literal: -9223372036854775808 is the smallest 64-bit integer
                 nv = -v.v
@@ -833,6 +835,11 @@ class Interp:
         want = KIND_OF_TYPE[vartype]
         if want in "if" and v.k == "c":
             raise IllFormed("complex-to-real", name, first.line, first.col)
+        if want == "i" and v.k == "f":
+            self.env[name] = float_to_int(v, scalar=True)
+            self.feat("int<-exact-float" if not self.env[name].big else "int<-huge-float")
+            self.declared.add(name)
+            return
         ok = {
             "i": v.k == "i",
             "f": v.k in "if",
@@ -895,6 +902,10 @@ class Interp:
                         raise OOD("int64 range")
                     if want in "if" and v.k == "c":
                         raise IllFormed("complex-to-real", name, first.line, first.col)
+                    if want == "i" and v.k == "f":
+                        orow.append(float_to_int(v, scalar=False))
+                        self.feat("int<-exact-float")
+                        continue
                     if want == "i" and v.k != "i":
                         raise OOD("array element not type-compatible (i <- %s)" % v.k)
                     orow.append(convert(v, want))
@@ -1109,6 +1120,25 @@ def _first_token(e):
         if hasattr(x, "line"):
             return x
     return None
+
+
+def float_to_int(v, scalar):
+    """A float where the declared type is int (Appendix A, rule 14).  In the domain only where the conversion is exact and
+    does not depend on rounding: (a) a float known without error (a literal such as 3.0 or 2e3, or a variable holding
+    one) that is integral and inside int64 becomes that integer; (b) for an ``int`` scalar, a float of magnitude >=
+    2**53 - integral whatever its last bits are - becomes the integer of the float the implementation computed, which the
+    reference knows within its error bound.  Everything else (3.7; 6/2, whose reference value carries a rounding bound)
+    stays outside the quantifier "type-compatible initialiser"."""
+    import math as _m
+
+    x = v.v
+    if not _m.isfinite(x):
+        raise OOD("non-finite")
+    if v.e == 0.0 and x == int(x) and abs(x) < 2 ** 63:
+        return V("i", int(x))
+    if scalar and abs(x) >= 2 ** 53 and v.e <= 1e-6 * abs(x):
+        return refnum.ApproxInt("i", int(x), v.e)
+    raise OOD("initialiser not type-compatible (i <- f)")
 
 
 def convert(v, want):
